@@ -77,7 +77,10 @@ Definition ex_zombie : list (tid * event) :=
   [(11, ERestartStopped 1)] ++ mk 11 101 1 ++ [(11, EApiReturn true)] ++
   [(20, EState 100 SRunning); (20, ELaunch true)] ++ boot 21 101.
 
-(* the zombie window alone: instance 100 is stopped while Pending before its goroutine was begun;
+(* NO LONGER A RUN OF THE MODEL (hardened model: the creation write "Pending" belongs to runProcess, on the
+   creating thread, before the registration).  In the first version of the model this history was accepted
+   and showed a C08 violation with w_zombie as the only flag:
+   instance 100 is stopped while Pending before its goroutine was begun;
    its successor 101 is launched; a late "Pending" write for 100 (the model does not tie that write to
    runProcess) makes a stop of 101 take the Pending branch although 101's command is alive;
    a restart then launches 102 next to it *)
@@ -109,11 +112,12 @@ Lemma ex_zombie_bad :
   windows_of (final_obs cs_disabled ex_zombie) = [true; false; true; false; false; false; false].
 Proof. split; [accepted|]. split; vm_compute; reflexivity. Qed.
 
-Lemma ex_zombie_only_bad :
-  (exists s, accept (init cs_disabled false) ex_zombie_only = Some s) /\
-  holds_C08 cs_disabled ex_zombie_only = false /\
-  windows_of (final_obs cs_disabled ex_zombie_only) = [true; false; false; false; false; false; false].
-Proof. split; [accepted|]. split; vm_compute; reflexivity. Qed.
+(* the hardened model rejects it at event 31, the late (99, EState 100 SPending) *)
+Lemma ex_zombie_only_rejected :
+  accept (init cs_disabled false) ex_zombie_only = None /\
+  fst (accept_prefix (init cs_disabled false) ex_zombie_only 0) = 31%nat /\
+  nth 31 ex_zombie_only (0, EResume) = (99, EState 100 SPending).
+Proof. repeat split; vm_compute; reflexivity. Qed.
 
 Lemma C08_refuted_lemma : exists cs ord evs s, accept (init cs ord) evs = Some s /\ holds_C08 cs evs = false.
 Proof.
@@ -134,13 +138,6 @@ Lemma C08_zombie_needed_lemma : exists cs ord evs s, accept (init cs ord) evs = 
 Proof.
   destruct ex_zombie_bad as [[s Hs] [Hh Hw]]. exists cs_disabled, false, ex_zombie, s.
   repeat split; auto; vm_compute; reflexivity.
-Qed.
-
-(* ... and w_zombie cannot be replaced by any of the other flags: all of them are false here *)
-Lemma C08_zombie_only_lemma : exists cs ord evs s, accept (init cs ord) evs = Some s /\
-  windows_of (final_obs cs evs) = [true; false; false; false; false; false; false] /\ holds_C08 cs evs = false.
-Proof.
-  destruct ex_zombie_only_bad as [[s Hs] [Hh Hw]]. exists cs_disabled, false, ex_zombie_only, s. auto.
 Qed.
 
 (* the declarative form of the main theorem *)
